@@ -551,3 +551,70 @@ Proof.
     - vm_compute. discriminate. }
   split; [vm_compute; reflexivity|]. split; vm_compute; reflexivity.
 Qed.
+
+(* ------------------------------------------------------------------ the guards of the theorems above are met
+   by reachable steps (the theorems are not vacuous) *)
+Definition nv_cfg : vconfig :=
+  {| vc_incoming := false; vc_ipv4 := true; vc_link_mtu := 1500; vc_rx_buf := 1048576;
+     vc_tx_init := 32768; vc_tx_max := 1048576; vc_nagle := false; vc_max_retx := 5;
+     vc_inactivity := 1000000000000; vc_wait_last_ack := true; vc_mtu_probe_max_retx := 1;
+     vc_isn := 100; vc_remote_seq := 1; vc_remote_conn_id := 7; vc_remote_wnd := 1048576;
+     vc_remote_ts := 5; vc_syn_sent := 0; vc_now0 := 1000000 |}.
+
+(* six expiries of the retransmission timer with max_retransmissions = 5: five back-offs, then the cap *)
+Definition nv_rto_ops : list vop :=
+  [VoWrite (repeat 0 (Z.to_nat 528)); VoPoll []; VoSetNow 2000000000; VoPoll []; VoSetNow 5000000000; VoPoll [];
+   VoSetNow 9000000000; VoPoll []; VoSetNow 20000000000; VoPoll []; VoSetNow 40000000000; VoPoll [];
+   VoSetNow 80000000000; VoPoll []].
+
+Definition rto_fired (st : fstep) : bool :=
+  match fs_result st with
+  | FrPoll PollPending _ _ _ => (f_rto_retx (fs_post st) =? f_rto_retx (fs_pre st) + 1) && tol_ok (fs_post st)
+  | _ => false
+  end.
+
+Definition gave_up (st : fstep) : bool :=
+  match fs_result st with FrPoll (PollReadyErr ErrMaxRetransmissionsReached) _ _ _ => true | _ => false end.
+
+Lemma backoff_cap_nonvacuous :
+  exists w cfg ops,
+    vconfig_ok cfg = true /\ Forall op_msg_ok ops /\
+    Z.of_nat (length (filter rto_fired (wtrace w cfg ops))) = 5 /\
+    existsb gave_up (wtrace w cfg ops) = true /\
+    forallb (c06_backoff_ok cfg) (wtrace w cfg ops) = true /\
+    forallb (c06_cap_ok cfg) (wtrace w cfg ops) = true /\
+    c06_emitted_live_ok_g cfg (wtrace w cfg ops) = true /\
+    c06_no_resend_acked_g cfg (wtrace w cfg ops) = true /\
+    c06_joint_ok cfg (wtrace w cfg ops) = true.
+Proof.
+  exists 1000, nv_cfg, nv_rto_ops.
+  split; [vm_compute; reflexivity|]. split; [repeat constructor|].
+  repeat split; vm_compute; reflexivity.
+Qed.
+
+(* three duplicate ACKs: the poll enters Recovering and retransmits the first undelivered segment *)
+Definition nv_dup : msg := wmsg ST_STATE 1 100 0.
+Definition nv_fast_ops : list vop :=
+  [VoWrite (repeat 0 (Z.to_nat 528)); VoPoll [];
+   VoDeliver nv_dup; VoDeliver nv_dup; VoDeliver nv_dup; VoDeliver nv_dup; VoPoll []].
+
+Definition entered_recovery (st : fstep) : bool :=
+  match fs_result st, f_recovery (fs_pre st), f_recovery (fs_post st) with
+  | FrPoll PollPending pk _ _, CountingDuplicates _, Recovering _ =>
+      (f_rto_retx (fs_post st) =? 0) && negb (f_transport_pending (fs_post st)) &&
+      existsb fq_is_data pk
+  | _, _, _ => false
+  end.
+
+Lemma fast_retx_nonvacuous :
+  exists w cfg ops,
+    vconfig_ok cfg = true /\ Forall op_msg_ok ops /\
+    existsb entered_recovery (wtrace w cfg ops) = true /\
+    c06_fast_retx_ok_g cfg (wtrace w cfg ops) = true /\
+    forallb (c06_fast_retx_ok cfg) (wtrace w cfg ops) = true.
+Proof.
+  exists 1000, nv_cfg, nv_fast_ops.
+  split; [vm_compute; reflexivity|]. split.
+  { unfold nv_fast_ops. repeat (apply Forall_cons; [try exact I|]); try apply Forall_nil; vm_compute; reflexivity. }
+  repeat split; vm_compute; reflexivity.
+Qed.
